@@ -108,6 +108,13 @@ func main() {
 				fmt.Println(k)
 			}
 		}
+	case "maploops":
+		p, err := loadAll()
+		if err != nil {
+			fmt.Println(err)
+			os.Exit(2)
+		}
+		cmdMapLoops(p)
 	case "fvtargets":
 		p, err := loadAll()
 		if err != nil {
